@@ -149,6 +149,10 @@ def handle (st : St) (line : String) : St × String :=
     match xs.mapM decodeExpr with
     | some es => (st, " ".intercalate (es.map fun e => if allTablesTagged e then "1" else "0"))
     | none => (st, "error bad-tagcheck-request")
+  | some (.list (.atom "envsubst" :: xs)) =>
+    match Sourcer.X.handleEnvSubst xs with
+    | some out => (st, out)
+    | none => (st, "error bad-envsubst-request")
   | some (.list (.atom "envfv" :: xs)) =>
     match Sourcer.X.handleEnvFv xs with
     | some out => (st, out)
